@@ -1,4 +1,9 @@
 import Ivg.Lemmas.GenQ
+import Ivg.Lemmas.PathParse3
+import Ivg.Lemmas.PathShape
+import Ivg.Lemmas.PathParseErr
+import Ivg.Lemmas.MdParse4
+import Ivg.Lemmas.PathExamples
 import Ivg.Gen.Tie.GeneratorFields
 import Ivg.Gen.Tie.MdFields
 import Ivg.Obligations
@@ -16,7 +21,11 @@ Models: `Ivg/Model/Generator.lean` (`concat`, `mulAff3`, `normalizeArgs`, `emitV
 `/repo/generate/generate.go`) and `Ivg/Model/MdIcons.lean` (`normalizeArgs`, `parsePath`; Go:
 `/repo/mdicons/parsepath.go`, `parsepathdata.go`).  Arithmetic facts are proved for the models
 instantiated at EXACT arithmetic (`ℚ`); structural facts for every number type.
-The parsing clauses of C20 (tokenising the path string, implicit verb repetition) are not in this file.
+The parsing clauses of C20 (tokenising the path string, implicit verb repetition) are the last two sections:
+the specification (`Ivg/Spec/PathData.lean`: abstract syntax `Cmd`, numerals `Tok`, the printers `render` /
+`renderC` / `renderMd`, the decidable dialects `WellFormed` / `WellFormedC` / `WellFormedMd`, the spelled
+operations `spelled` / `spelledMd`) is written without the parsers; the theorems are round trips
+"parse (print p) = the operations p spells", plus the shape of the output for EVERY input string.
 -/
 namespace Ivg.Props.C20
 open Ivg Gen GenQ
@@ -201,12 +210,248 @@ theorem circle_endpoints (cx r : ℚ) :
     (cx - r) + (Arith.ofInt 2 : ℚ) * r = cx + r ∧ (cx + r) + (Arith.ofInt (-2) : ℚ) * r = cx - r :=
   MdG.circle_endpoints cx r
 
+/-! ## parsing: the generator's `SetPathData` -/
+section parsing
+open Spec.PathData PathExamples
+variable {α : Type} [Arith α]
+
+/-- Clause "for well-formed SVG path data in the dialect [the generator] supports, the path-data method
+    emits exactly the operations spelled by the path (the first move starts the path with the given register
+    adjustment, later moves close-and-move, a verb's operand groups may repeat without restating the verb,
+    the path is ended exactly once) with coordinates transformed by the configured … transform, arc flags
+    unchanged and rotation converted from degrees to turns" — canonical concrete syntax (`render`: verb
+    letter, numerals each followed by one space, final `z`).  `spelled` (Ivg/Spec/PathData.lean): the first
+    group of the first `M`/`m` is `StartPath adj` at the fully transformed point (a leading `m` is absolute,
+    SVG 1.1 §8.3.2), further groups of a move are line-tos (`L` after `M`, `l` after `m`), a later move's
+    first group is close-and-move, every group of every other verb is one call (`Spec.PathData.draw`),
+    one `ClosePathEndPath` at the end; operands through `normalizeArgs` (see `normalize_abs_rel`). -/
+theorem setPathData_render (ts : List (Aff3 α)) (adj : UInt8) (cmds : List (Cmd Tok)) (hwf : WellFormed cmds) :
+    setPathData ts (render cmds) adj = .ok (spelled adj ts (cmds.map (Cmd.map Tok.value))) :=
+  PathParse.setPathData_render ts adj cmds hwf
+example : WellFormed exB ∧ render exB = "M1 2 3 4 5 6 C1 2 3 4 5 6 7 8 9 10 11 12 z" := by decide
+
+/-- … the same for the general concrete syntax `renderC`: every numeral (`[+-]? digits [. digits]` with at
+    least one digit: `5`, `-5`, `+5`, `1.25`, `.5`, `5.`) is followed by its own run of spaces and commas,
+    which may be EMPTY where the next numeral delimits itself (`1-2`, `1.5.5` = `1.5 .5`) or a verb letter
+    follows.  `WellFormedC` (decidable) is the dialect: known verbs, groups of the verb's operand count
+    (≥ 1; none for `z`/`Z`), first command a move, numerals delimited (`adjOK`).  Outside it, on purpose:
+    white space between a verb letter and its first numeral, exponents, compact arc flags — see the
+    findings below. -/
+theorem setPathData_renderC (ts : List (Aff3 α)) (adj : UInt8) (cs : List (Cmd CTok)) (hwf : WellFormedC cs) :
+    setPathData ts (renderC cs) adj = .ok (spelled adj ts (cs.map (Cmd.map fun t => t.tok.value))) :=
+  PathParse.setPathData_renderC ts adj cs hwf
+example : WellFormedC exA ∧
+    renderC exA = "m1,2-3.5.5a1 2 90 0 1 -.5+4 5. 6 7 8 9 10 11zM1 2 3 4H5z" := by decide
+
+/-- Clauses "the path is ended exactly once" and "the first move starts the path with the given register
+    adjustment", for EVERY input string: a successful `SetPathData(d, adj)` made `StartPath(adj, x, y)`,
+    then drawing calls only, then `ClosePathEndPath` — except for `d = "z"`, where it made the
+    `ClosePathEndPath` alone. -/
+theorem setPathData_shape (ts : List (Aff3 α)) (d : String) (adj : UInt8) (cs : List (Call α))
+    (h : setPathData ts d adj = .ok cs) :
+    (d = "z" ∧ cs = [.closeEnd]) ∨
+    ∃ x y body, cs = .startPath adj x y :: body ++ [.closeEnd] ∧ ∀ c ∈ body, isDrawing c = true :=
+  PathShape.setPathData_shape ts d adj cs h
+
+/-- `ends_once`: exactly one `ClosePathEndPath`, and it is the last call -/
+theorem ends_once (ts : List (Aff3 α)) (d : String) (adj : UInt8) (cs : List (Call α))
+    (h : setPathData ts d adj = .ok cs) : cs.countP isEnd = 1 ∧ cs.getLast? = some .closeEnd :=
+  PathShape.ends_once ts d adj cs h
+
+/-- `starts_once`: (unless the data is the bare `"z"`) exactly one `StartPath`; it is the first call and
+    carries the given adjustment -/
+theorem starts_once (ts : List (Aff3 α)) (d : String) (adj : UInt8) (cs : List (Call α))
+    (h : setPathData ts d adj = .ok cs) (hd : d ≠ "z") :
+    cs.countP isStart = 1 ∧ ∃ x y, cs.head? = some (.startPath adj x y) :=
+  PathShape.starts_once ts d adj cs h hd
+
+/-- no other call kinds: every call is a drawing call, the start or the end -/
+theorem only_drawing_between (ts : List (Aff3 α)) (d : String) (adj : UInt8) (cs : List (Call α))
+    (h : setPathData ts d adj = .ok cs) :
+    ∀ c ∈ cs, isDrawing c = true ∨ isStart c = true ∨ isEnd c = true :=
+  PathShape.only_drawing_between ts d adj cs h
+
+/-- errors: the result is EITHER an error OR the calls (by construction of the model: the Go method has by
+    then made the calls of the commands before the offending one — the model does not describe those) … -/
+theorem error_no_calls (ts : List (Aff3 α)) (d : String) (adj : UInt8) (e : GenErr)
+    (h : setPathData ts d adj = .error e) : ∀ cs, setPathData ts d adj ≠ .ok cs :=
+  PathShape.error_no_calls ts d adj e h
+
+/-- … an unknown verb letter at the start of the data is `UnrecognizedPathDataVerb`, whatever follows -/
+theorem unknown_first_verb (ts : List (Aff3 α)) (adj : UInt8) (c : Char) (rest : List Char)
+    (hc : verbArgCount c = none) :
+    setPathData ts (String.ofList (c :: rest)) adj = .error (.unrecognizedPathDataVerb c) :=
+  PathShape.unknown_first_verb ts adj c rest hc
+example : verbArgCount 'X' = none := by decide
+
+/-- … and a missing operand — fewer numerals than the verb takes before the next verb letter or the final
+    `z` — in the first command is an error (ParseFloat's, or Go's index panic: `malformed`) -/
+theorem missing_operand_first (ts : List (Aff3 α)) (adj : UInt8) (v : Char) (n : Nat)
+    (hv : verbArgCount v = some n) (g : List CTok) (hg : ∀ t ∈ g, PathParse.TokOK t) (hch : chainOK g = true)
+    (hshort : g.length < n) (x : Char) (X : List Char) (hx : verbArgCount x ≠ none) :
+    ∃ e, setPathData ts (String.ofList (v :: (g.flatMap CTok.render ++ x :: X))) adj = .error e :=
+  PathParse.missing_operand_first ts adj v n hv g hg hch hshort x X hx
+-- `M1 L3 4z`
+example : verbArgCount 'M' = some 2 ∧ (∀ t ∈ [nat 1], PathParse.TokOK t) ∧ chainOK [nat 1] = true ∧
+    [nat 1].length < 2 ∧ verbArgCount 'L' ≠ none ∧
+    String.ofList ('M' :: ([nat 1].flatMap CTok.render ++ 'L' :: "3 4z".toList)) = "M1 L3 4z" := by
+  refine ⟨rfl, ?_, rfl, by decide, by decide, by decide⟩
+  intro t ht; simp only [List.mem_singleton] at ht; subst ht; exact ⟨by decide, by decide⟩
+
+end parsing
+
+/-! ### concrete strings at the bit-exact float32 instance (kernel evaluation of the model, independent
+of the theorems above) -/
+section concrete
+open Num Spec.PathData PathExamples
+
+-- decidable equality of results (`PathExamples.exceptDecEq`), for the evaluations below
+attribute [local instance] exceptDecEq
+
+-- a relative move as first command (absolute start, then `l`), commas, self-delimiting numerals, `.5`, `5.`,
+-- an arc (90° ↦ 0.25 turns, flags 0/1 ↦ false/true) with an implicitly repeated group (7° ↦ 7/360),
+-- `z` in the middle, `M` followed by two groups (close-and-move, then `L`), `H`
+set_option maxRecDepth 100000 in
+example : setPathData (α := F32) [] "m1,2-3.5.5a1 2 90 0 1 -.5+4 5. 6 7 8 9 10 11zM1 2 3 4H5z" 3 =
+    .ok [.startPath 3 ⟨0x3f800000⟩ ⟨0x40000000⟩,                      -- StartPath(3, 1, 2)
+         .d2 .l ⟨0xc0600000⟩ ⟨0x3f000000⟩,                            -- RelLineTo(-3.5, .5)
+         .arc true ⟨0x3f800000⟩ ⟨0x40000000⟩ ⟨0x3e800000⟩ false true ⟨0xbf000000⟩ ⟨0x40800000⟩,
+         .arc true ⟨0x40a00000⟩ ⟨0x40c00000⟩ ⟨1017072117⟩ true true ⟨0x41200000⟩ ⟨0x41300000⟩,
+         .d2 .Y ⟨0x3f800000⟩ ⟨0x40000000⟩,                            -- ClosePathAbsMoveTo(1, 2)
+         .d2 .L ⟨0x40400000⟩ ⟨0x40800000⟩,                            -- AbsLineTo(3, 4)
+         .d1 .H ⟨0x40a00000⟩,                                         -- AbsHLineTo(5)
+         .closeEnd] := by decide +kernel
+
+-- the same string through the theorem
+example (ts : List (Aff3 F32)) :
+    setPathData ts "m1,2-3.5.5a1 2 90 0 1 -.5+4 5. 6 7 8 9 10 11zM1 2 3 4H5z" 3 =
+      .ok (spelled 3 ts (exA.map (Cmd.map fun t => t.tok.value))) := by
+  rw [← setPathData_renderC ts 3 exA (by decide)]; rfl
+
+-- `M` followed by several groups and an implicitly repeated cubic, under scale 2 / translate −32
+set_option maxRecDepth 100000 in
+example : setPathData (α := F32) [scale2 (F32.ofInt 2) (F32.ofInt 2), translate (F32.ofInt (-32)) (F32.ofInt (-32))]
+      "M1 2 3 4 5 6 C1 2 3 4 5 6 7 8 9 10 11 12 z" 0 =
+    .ok [.startPath 0 (F32.ofInt (-30)) (F32.ofInt (-28)),
+         .d2 .L (F32.ofInt (-26)) (F32.ofInt (-24)), .d2 .L (F32.ofInt (-22)) (F32.ofInt (-20)),
+         .d6 .C (F32.ofInt (-30)) (F32.ofInt (-28)) (F32.ofInt (-26)) (F32.ofInt (-24)) (F32.ofInt (-22)) (F32.ofInt (-20)),
+         .d6 .C (F32.ofInt (-18)) (F32.ofInt (-16)) (F32.ofInt (-14)) (F32.ofInt (-12)) (F32.ofInt (-10)) (F32.ofInt (-8)),
+         .closeEnd] := by decide +kernel
+
+-- errors: a missing operand before a verb letter, a letter that is no verb in the middle, white space
+-- after a verb letter (outside the dialect), the data not ending in `z`
+set_option maxRecDepth 100000 in
+example : setPathData (α := F32) [] "M1 2L3L4 5z" 0 = .error .parseFloat ∧
+    setPathData (α := F32) [] "M1 2X3 4z" 0 = .error .parseFloat ∧
+    setPathData (α := F32) [] "M 1 2z" 0 = .error .parseFloat ∧
+    setPathData (α := F32) [] "M1 2L3z" 0 = .error .malformed ∧
+    setPathData (α := F32) [] "M1 2" 0 = .error .malformed := by decide +kernel
+
+end concrete
+
+/-! ## parsing: the converter's `ParsePathData` / `ParsePath` -/
+section mdparsing
+open Spec.PathData PathExamples Md MdG
+variable {α : Type} [Arith α]
+
+/-- Clause "… and the Material Design converter emit exactly the operations spelled by the path" —
+    `ParsePathData` on the converter's dialect `WellFormedMd` (decidable): first command an absolute `M`
+    at the very start of the data, ONE operand group per `M`/`m`, no arcs, SPACES only as separators (any
+    number, also after a verb letter, none where the next numeral delimits itself), the data terminated by
+    `z` (trimmed).  The calls are `spelledMd`: `StartPath(adj, …)` for the first move, then one drawing
+    call per operand group (implicit repetition included), `z`/`Z` in the middle nothing, operands read as
+    `ParseFloat(·, 32)` and mapped by the converter's coordinate map (`md_normalize`).  The end of the
+    path is `ParsePath`'s (next theorem). -/
+theorem parsePathData_renderMd (adj : UInt8) (size offX offY outSize : α) (cs : List MdCmd)
+    (hwf : WellFormedMd cs) :
+    parsePathData (renderMd cs) adj size offX offY outSize =
+      .ok (spelledMd adj size offX offY outSize (cs.map fun c => c.cmd.map fun t => t.tok.value32)) :=
+  MdParse.parsePathData_renderMd adj size offX offY outSize cs hwf
+example : WellFormedMd exM ∧ renderMd exM = "M 25 26l1-2-3-4  H30z M31 32 zz" := by decide
+
+/-- … the same for data without the terminating `z` (when it does not end in a `z` command) -/
+theorem parsePathData_renderMdOpen (adj : UInt8) (size offX offY outSize : α) (cs : List MdCmd)
+    (hwf : WellFormedMd cs) (hz : (renderMdCmds cs).getLast? ≠ some 'z') :
+    parsePathData (renderMdOpen cs) adj size offX offY outSize =
+      .ok (spelledMd adj size offX offY outSize (cs.map fun c => c.cmd.map fun t => t.tok.value32)) :=
+  MdParse.parsePathData_renderMdOpen adj size offX offY outSize cs hwf hz
+example : WellFormedMd (exM.take 3) ∧ (renderMdCmds (exM.take 3)).getLast? ≠ some 'z' := by decide
+
+/-- … and the whole of `ParsePath` on such data: the opacity decision's register write (if any), the calls
+    spelled by the path data with that decision's ADJ, per circle a close-and-move and the two half-turn
+    arcs, and `ClosePathEndPath` exactly once, last. -/
+theorem parsePath_renderMd (adjs : List (α × UInt8)) (cs : List MdCmd) (hwf : WellFormedMd cs)
+    (opacity size offX offY outSize : α) (circles : List (Circle α)) :
+    parsePath adjs (renderMd cs) opacity size offX offY outSize circles =
+      (let dec := opacityDecision adjs opacity
+       (dec.1, .ok (dec.2.2 ++
+          spelledMd dec.2.1 size offX offY outSize (cs.map fun c => c.cmd.map fun t => t.tok.value32) ++
+          circles.flatMap (circleCalls size offX offY outSize dec.2.1 false) ++ [.closeEnd]))) :=
+  MdParse.parsePath_renderMd adjs cs hwf opacity size offX offY outSize circles
+
+end mdparsing
+
+section mdconcrete
+open Num Spec.PathData PathExamples
+attribute [local instance] exceptDecEq
+
+-- converter at float32, size 24 → outSize 48 (scale 2, absolute −24): spaces after the verb, numerals
+-- delimiting themselves, implicit repetition of `l`, `z` in the middle, a later `M` (close-and-move)
+set_option maxRecDepth 100000 in
+example : Md.parsePathData (α := F32) "M 25 26l1-2-3-4  H30z M31 32 zz" 3 (F32.ofInt 24) (F32.ofInt 0) (F32.ofInt 0)
+      (F32.ofInt 48) =
+    .ok [.startPath 3 (F32.ofInt 26) (F32.ofInt 28), .d2 .l (F32.ofInt 2) (F32.ofInt (-4)),
+         .d2 .l (F32.ofInt (-6)) (F32.ofInt (-8)), .d1 .H (F32.ofInt 36),
+         .d2 .Y (F32.ofInt 38) (F32.ofInt 40)] := by decide +kernel
+
+-- FINDINGS (converter, confirmed on the Go code): further groups of a move are re-emitted as
+-- close-and-move where SVG spells line-tos; a leading relative move, or a space before the first `M`,
+-- yields no `StartPath` at all
+set_option maxRecDepth 100000 in
+example :
+    Md.parsePathData (α := F32) "M1 2 3 4z" 0 (F32.ofInt 1) (F32.ofInt 0) (F32.ofInt 0) (F32.ofInt 0) =
+      .ok [.startPath 0 (F32.ofInt 0) (F32.ofInt 0), .d2 .Y (F32.ofInt 0) (F32.ofInt 0)] ∧
+    Md.parsePathData (α := F32) "m1 2 3 4z" 0 (F32.ofInt 1) (F32.ofInt 0) (F32.ofInt 0) (F32.ofInt 0) =
+      .ok [.d2 .y (F32.ofInt 0) (F32.ofInt 0), .d2 .y (F32.ofInt 0) (F32.ofInt 0)] ∧
+    Md.parsePathData (α := F32) " M1 2z" 0 (F32.ofInt 1) (F32.ofInt 0) (F32.ofInt 0) (F32.ofInt 0) =
+      .ok [.d2 .Y (F32.ofInt 0) (F32.ofInt 0)] := by decide +kernel
+
+end mdconcrete
+
 /-!
 ## Not proved in this file
 
-* The parsing clauses of C20 (verbs, implicit repetition, number tokens): other files.
+* Parsing, generator: the round trip is proved for the dialect `WellFormedC` and no further.  Known and
+  accepted: the data must end in a lower-case `z`; a `z`/`Z` in the middle is a no-op for the generator
+  (`spelled` gives it no call; for SVG the pen returns to the sub-path start, which matters only if a
+  drawing verb rather than a move follows).  FINDINGS — well-formed SVG path data on which `SetPathData`
+  (model and Go code alike, checked on both) does not make the spelled operations:
+    - white space (or a comma) between a verb letter and its first numeral: `"M 1 2 L 3 4 z"` returns the
+      `strconv.ParseFloat` error for `" 1"` (no call) where the path spells StartPath(1,2), AbsLineTo(3,4), end;
+    - white space after a `z` in the middle: `"M1 2 z M3 4z"` never terminates in Go (the model: `malformed`);
+    - compact arc flags `"M1 2a1 2 90 01 3 4z"` (= flags 0 and 1): Go panics (index out of range), model `malformed`;
+    - exponents `"M1e1 2z"`: ParseFloat error for `"e1"`;
+    - other white space than blanks (new line, tab) between numerals: ParseFloat error;
+    - the empty path `"z"` makes a `ClosePathEndPath` without any `StartPath` (`setPathData_shape`).
+  Model vs Go outside the dialect: for a first command with ONE operand (`"H5z"`) Go calls
+  `StartPath(adj, 5, 0)` (stale second operand); the model returns `UnrecognizedPathDataVerb('@')`.
+* Parsing, generator, errors: `unknown_first_verb`, `missing_operand_first` and `error_no_calls` are general
+  (and `PathParse.scanArgs_missing`: the scan of a short group fails wherever it occurs); an unknown letter
+  or a missing operand BEHIND a well-formed prefix of commands is shown to be an error on examples only (the
+  letter is then taken for an implicit repetition and the error is ParseFloat's or an index panic).
+* Parsing, converter: the round trip is proved for `WellFormedMd` and no further.  FINDINGS (model and Go
+  code alike) — well-formed SVG path data on which `ParsePathData` does not make the spelled operations:
+    - `M`/`m` followed by several operand groups: `"M1 2 3 4z"` makes StartPath(1,2), ClosePathAbsMoveTo(3,4)
+      where SVG spells StartPath(1,2), AbsLineTo(3,4) (implicit line-to); likewise `m` re-emits
+      ClosePathRelMoveTo for every group;
+    - a relative move as first command: `"m1 2 3 4z"` makes ClosePathRelMoveTo twice and NO StartPath;
+    - a space before the first `M`: `" M1 2z"` makes ClosePathAbsMoveTo(1,2) and NO StartPath;
+    - commas are not separators (`Fscanf` fails, the error is ignored and a stale operand used; model: `malformed`);
+    - no arcs (`A`/`a`: "unknown opcode").
 * Rounding: `concat`, `normalize` are proved at `ℚ` only; at float32 `Concat` of a single transform is
-  that transform, and of several is the rounded product (not associative).
+  that transform, and of several is the rounded product (not associative).  The parsing theorems hold for
+  every number type, operands being `Arith.ofDecimalVia64` (generator) / `Arith.ofDecimal` (converter) of the
+  numeral — at float32 the correctly rounded value (via float64 for the generator).
 * `normalize_abs_rel` is stated for transforms whose concatenation has zero off-diagonal entries
   (scale-and-translate), which is what the property text names; for a general matrix the generator's
   "scale" for relative operands is the diagonal of the matrix, which is not the linear part.
@@ -233,6 +478,18 @@ end Ivg.Props.C20
   Ivg.Props.C20.circles_two_arcs,
   Ivg.Props.C20.circle_calls,
   Ivg.Props.C20.circle_endpoints,
+  Ivg.Props.C20.setPathData_render,
+  Ivg.Props.C20.setPathData_renderC,
+  Ivg.Props.C20.setPathData_shape,
+  Ivg.Props.C20.ends_once,
+  Ivg.Props.C20.starts_once,
+  Ivg.Props.C20.only_drawing_between,
+  Ivg.Props.C20.error_no_calls,
+  Ivg.Props.C20.unknown_first_verb,
+  Ivg.Props.C20.missing_operand_first,
+  Ivg.Props.C20.parsePathData_renderMd,
+  Ivg.Props.C20.parsePathData_renderMdOpen,
+  Ivg.Props.C20.parsePath_renderMd,
   Ivg.Gen.Tie.generator_fields_tie,
   Ivg.Gen.Tie.mdPath_fields_tie,
   Ivg.Gen.Tie.mdCircle_fields_tie]
